@@ -1351,3 +1351,182 @@ func (c *Ctx) ruleOperatorTexts() {
 		c.rep.bad("R-COVER", "ComparisonOperator.String", "six distinct operator texts", pos, strings.Join(uniq(problems), "; "))
 	}
 }
+
+// ruleDefragWrites: Defrag changes content (slots, header), the error record
+// and the lock bookkeeping - nothing else in a configuration record.  A flag of
+// its own kept there (a "being defragmented" mark, a memo) could outlive the
+// call and make a later Defrag skip the stack.
+func (c *Ctx) ruleDefragWrites() {
+	fn := c.anchor("R-DEFRAG", "Stack.Defrag")
+	if fn == nil {
+		return
+	}
+	allowed := map[string]bool{"HDR": true, "SLOT": true, "nodeConfig.err": true, "nodeConfig.ldr": true}
+	var extra []string
+	for _, w := range c.eff.writesOf(fn) {
+		if allowed[w.Loc] || strings.HasPrefix(w.Loc, "APPEND") || strings.HasPrefix(w.Loc, "EXT:") || strings.HasPrefix(w.Loc, "ELEM:") || roBookkeeping[w.Loc] {
+			continue
+		}
+		if w.Root.Kind == 'f' {
+			continue
+		}
+		extra = append(extra, w.String())
+	}
+	sort.Strings(extra)
+	extra = uniq(extra)
+	if len(extra) == 0 {
+		c.rep.ok("R-DEFRAG", "Stack.Defrag", "writes content, error and lock bookkeeping only", c.p.pos(fn.Pos()), "no other field of a configuration record is written")
+	} else {
+		if len(extra) > 4 {
+			extra = extra[:4]
+		}
+		c.rep.bad("R-DEFRAG", "Stack.Defrag", "writes content, error and lock bookkeeping only", c.p.pos(fn.Pos()), "Defrag also writes "+strings.Join(extra, ", ")+": state kept in the configuration can outlive the call and change what a later Defrag does")
+	}
+}
+
+// ruleSliceLenBeforeIndex: slicesEqual indexes both operands with one counter
+// bounded by the first operand's length; every such Index is reached only
+// where capLenEqual has said the two lengths agree (arrays included: an array
+// type carries its length, but two arrays need not have the same type).
+func (c *Ctx) ruleSliceLenBeforeIndex() {
+	fn := c.anchor("R-REFL", "slicesEqual")
+	if fn == nil {
+		return
+	}
+	fa := c.eng.analyze(fn, nil)
+	gates := c.findCalls(fn, "capLenEqual")
+	isLen := func(v ssa.Value) bool {
+		call, ok := v.(*ssa.Call)
+		return ok && c.calleeName(&call.Call) == "(reflect.Value).Len"
+	}
+	var lenCmps []*ssa.BinOp
+	for _, b := range fn.Blocks {
+		for _, in := range b.Instrs {
+			if bo, ok := in.(*ssa.BinOp); ok && (bo.Op == token.EQL || bo.Op == token.NEQ) && isLen(bo.X) && isLen(bo.Y) {
+				lenCmps = append(lenCmps, bo)
+			}
+		}
+	}
+	n := 0
+	var problems []string
+	for _, b := range fn.Blocks {
+		for _, in := range b.Instrs {
+			call, ok := in.(*ssa.Call)
+			if !ok || c.calleeName(&call.Call) != "(reflect.Value).Index" {
+				continue
+			}
+			n++
+			if !fa.allHold(call, func(s *State) bool {
+				for _, g := range gates {
+					if v, known := fa.knownTerm(s, aTR, fa.term(s, g)); known && v {
+						return true
+					}
+				}
+				// or the two Len() results were compared directly
+				for _, cmp := range lenCmps {
+					if v, known := c.knownBool(fa, s, cmp); known && v == (cmp.Op == token.EQL) {
+						return true
+					}
+				}
+				return false
+			}) {
+				problems = append(problems, c.p.instrPos(call)+": an element is indexed on a path where the two lengths have not been compared equal (the shorter operand panics: index out of range)")
+			}
+		}
+	}
+	if n == 0 {
+		problems = append(problems, "no element access found (anchor)")
+	}
+	if len(problems) == 0 {
+		c.rep.ok("R-REFL", "slicesEqual", "Value.Index after the length comparison", c.p.pos(fn.Pos()), fmt.Sprintf("%d Index call(s), each behind capLenEqual == true", n))
+	} else {
+		sort.Strings(problems)
+		c.rep.bad("R-REFL", "slicesEqual", "Value.Index after the length comparison", c.p.pos(fn.Pos()), strings.Join(uniq(problems), "; "))
+	}
+}
+
+// ruleSymbolPieces: SetSymbol accepts its symbol in pieces (strings and runes)
+// and stores their concatenation.  Where the pieces are collected in a string
+// accumulator, every update of it inside the loop is "accumulator + piece":
+// no piece replaces what was collected so far.
+func (c *Ctx) ruleSymbolPieces() {
+	fn := c.anchor("R-KINDGUARD", "(*stack).setSymbol")
+	if fn == nil {
+		return
+	}
+	pos := c.p.pos(fn.Pos())
+	var acc *ssa.Phi
+	var hdr *ssa.BasicBlock
+	for _, b := range fn.Blocks {
+		isHeader := false
+		for _, p := range b.Preds {
+			if b.Dominates(p) {
+				isHeader = true
+			}
+		}
+		if !isHeader {
+			continue
+		}
+		for _, in := range b.Instrs {
+			if phi, ok := in.(*ssa.Phi); ok {
+				if bt, ok := phi.Type().Underlying().(*types.Basic); ok && bt.Kind() == types.String {
+					acc, hdr = phi, b
+				}
+			}
+		}
+	}
+	if acc == nil {
+		c.rep.ok("R-KINDGUARD", "(*stack).setSymbol", "pieces are concatenated", pos, "no string accumulator in a loop: not the form this rule evaluates; left undecided by it")
+		return
+	}
+	var problems []string
+	seen := map[ssa.Value]bool{}
+	var leaf func(v ssa.Value)
+	leaf = func(v ssa.Value) {
+		if seen[v] {
+			return
+		}
+		seen[v] = true
+		if v == ssa.Value(acc) {
+			return
+		}
+		switch x := v.(type) {
+		case *ssa.Phi:
+			if hdr.Dominates(x.Block()) {
+				for _, e := range x.Edges {
+					leaf(e)
+				}
+				return
+			}
+		case *ssa.BinOp:
+			if x.Op == token.ADD {
+				// accumulator (possibly already extended in this iteration) + piece
+				leaf(x.X)
+				return
+			}
+		}
+		where := pos
+		if in := firstInstrOf(v); in != nil {
+			where = c.p.instrPos(in)
+		}
+		problems = append(problems, "inside the loop the collected symbol can be replaced by a value that does not extend it ("+v.Name()+" at "+where+")")
+	}
+	for i, p := range hdr.Preds {
+		if hdr.Dominates(p) {
+			leaf(acc.Edges[i])
+		}
+	}
+	if len(problems) == 0 {
+		c.rep.ok("R-KINDGUARD", "(*stack).setSymbol", "pieces are concatenated", pos, "every update of the accumulator inside the loop is accumulator + piece")
+	} else {
+		sort.Strings(problems)
+		c.rep.bad("R-KINDGUARD", "(*stack).setSymbol", "pieces are concatenated", pos, strings.Join(uniq(problems), "; "))
+	}
+}
+
+func firstInstrOf(v ssa.Value) ssa.Instruction {
+	if in, ok := v.(ssa.Instruction); ok {
+		return in
+	}
+	return nil
+}
